@@ -797,6 +797,9 @@ pub fn hook_generate_value_tld(name: &str, v: i128) -> Result<String, String> {
 /// accessor for the native replay of format_identifier_annotation (unit GEN_emission)
 #[cfg(not(kani))]
 pub fn hook_identifier_annotation(name: &str, comments: &str, ty: &ASN1Type) -> String { crate::generator::rasn::Rasn::default().format_identifier_annotation(name, comments, ty).to_string() }
+/// accessor for the native replay of type_to_tokens (unit GEN_type_table)
+#[cfg(not(kani))]
+pub fn hook_type_to_tokens(ty: &ASN1Type) -> Result<String, String> { crate::generator::rasn::Rasn::default().type_to_tokens(ty).map(|t| t.to_string()).map_err(|e| format!("{e:?}")) }
 /// accessor for the native replay of unit GEN_values: Rasn::value_to_tokens, token text as proc_macro2 prints it
 #[cfg(not(kani))]
 pub fn hook_value_to_tokens(v: &crate::intermediate::ASN1Value, type_name: Option<&str>) -> Result<String, String> {
